@@ -14,7 +14,8 @@ ASSUMPTIONS = ["source-to-model tie is differential testing; the theorems are ab
                "the check applies the executable frame predicate c11_pred to the implementation's accessors before/after each modifier"]
 RULE = ("base matrix: 4 schemes x 7 userinfo shapes (absent/empty/escaped user and password) x 4 host kinds (name, IPv4, IPv6, "
         "IPv6+zone) x 6 port spellings x 4 paths x query x fragment = 10752 bases (quick: every 17th) x 47 modifier calls incl. "
-        "None arguments and keep_query/keep_fragment combinations; plus random programs' last step; distinct = distinct "
+        "None arguments and keep_query/keep_fragment combinations; the same calls on receivers whose authority parts are not pre-computed "
+        "(unpickled), on authorities with an empty host, and on verbatim (encoded=True) receivers with zero-padded or empty ports; distinct = distinct "
         "(base, modifier); non-trivial = the modifier returned a URL")
 
 SCHEMES = ["http", "https", "x", ""]
